@@ -149,12 +149,118 @@ Proof.
 Qed.
 
 (* ------------------------------------------------------------------------------------ *)
+(* thread table; shape of [exec] (one operation of a thread, including resume and spawn) *)
+(* ------------------------------------------------------------------------------------ *)
+Lemma lookup_setth t x : forall ths k,
+  lookup k (setth t x ths) =
+  if Nat.eqb k t then match lookup t ths with Some _ => Some x | None => None end else lookup k ths.
+Proof.
+  induction ths as [|[k0 y] r IH]; intros k; simpl.
+  - destruct (Nat.eqb k t); reflexivity.
+  - destruct (Nat.eqb_spec k0 t) as [->|Hne]; simpl.
+    + destruct (Nat.eqb_spec t k) as [<-|Hk].
+      * rewrite Nat.eqb_refl. reflexivity.
+      * destruct (Nat.eqb_spec k t); [congruence|reflexivity].
+    + rewrite IH. destruct (Nat.eqb_spec k0 k) as [<-|Hk].
+      * destruct (Nat.eqb_spec k0 t); [congruence|reflexivity].
+      * reflexivity.
+Qed.
+
+Lemma lookup_setth_other t x ths k : k <> t -> lookup k (setth t x ths) = lookup k ths.
+Proof. intros H. rewrite lookup_setth. destruct (Nat.eqb_spec k t); [congruence|reflexivity]. Qed.
+
+Lemma lookup_setth_same t x ths y : lookup t ths = Some y -> lookup t (setth t x ths) = Some x.
+Proof. intros H. rewrite lookup_setth, Nat.eqb_refl, H. reflexivity. Qed.
+
+Lemma lookup_snoc ths lab x k :
+  lookup k (ths ++ [(lab, x)]) =
+  match lookup k ths with Some y => Some y | None => if Nat.eqb lab k then Some x else None end.
+Proof.
+  induction ths as [|[k0 y] r IH]; simpl; auto.
+  destruct (Nat.eqb k0 k); auto.
+Qed.
+
+Inductive exec_shape (m : mode)
+  : nat -> bop -> state -> state -> list event -> status -> Prop :=
+| XS_fuel tid b st : exec_shape m tid b st st [EFuel] SCont
+| XS_basic tid b st st' ev s :
+    bstep m tid b st = (st', ev, s) -> exec_shape m tid b st st' ev s
+| XS_spawn tid lab body st :
+    lookup lab (threads st) = None ->
+    exec_shape m tid (BSpawn lab body) st
+      (set_threads st (threads st ++ [(lab, TFresh body)])) [ESpawn tid lab] SCont
+| XS_bad tid b st : exec_shape m tid b st st [EBad] SCont
+| XS_dead tid y st :
+    lookup y (threads st) = Some TDone ->
+    exec_shape m tid (BResume y) st st [EResume tid y RDead] SCont
+| XS_blocked tid y st :
+    lookup y (threads st) = Some TBlocked ->
+    exec_shape m tid (BResume y) st st [EResume tid y ROk] SCont
+| XS_run tid y st ts0 body st1 ev ts :
+    lookup y (threads st) = Some ts0 -> ts0 = TFresh body \/ ts0 = TSusp body ->
+    body_shape m (S y) body (set_threads st (setth y TRunning (threads st))) st1 ev ts ->
+    exec_shape m tid (BResume y) st
+      (set_threads st1 (setth y ts (threads st1))) (ev ++ [EResume tid y ROk]) SCont
+with body_shape (m : mode)
+  : nat -> list bop -> state -> state -> list event -> tstate -> Prop :=
+| BS_nil tid st : body_shape m tid [] st st [] TDone
+| BS_cont tid b rest st st1 ev st2 ev2 ts :
+    exec_shape m tid b st st1 ev SCont -> body_shape m tid rest st1 st2 ev2 ts ->
+    body_shape m tid (b :: rest) st st2 (ev ++ ev2) ts
+| BS_yield tid b rest st st1 ev :
+    exec_shape m tid b st st1 ev SYield -> body_shape m tid (b :: rest) st st1 ev (TSusp rest)
+| BS_hang tid b rest st st1 ev :
+    exec_shape m tid b st st1 ev SHang -> body_shape m tid (b :: rest) st st1 ev TBlocked.
+
+Scheme exec_shape_ind2 := Minimality for exec_shape Sort Prop
+  with body_shape_ind2 := Minimality for body_shape Sort Prop.
+
+Lemma run_with_shape m (ex : nat -> bop -> state -> state * list event * status) :
+  (forall tid b st st' ev s, ex tid b st = (st', ev, s) -> exec_shape m tid b st st' ev s) ->
+  forall tid body st st' ev ts,
+    run_with ex tid body st = (st', ev, ts) -> body_shape m tid body st st' ev ts.
+Proof.
+  intros Hex tid. induction body as [|b rest IH]; intros st st' ev ts H; simpl in H.
+  - injection H as <- <- <-. constructor.
+  - destruct (ex tid b st) as [[st1 ev1] s] eqn:Eb. apply Hex in Eb.
+    destruct s.
+    + destruct (run_with ex tid rest st1) as [[st2 ev2] ts2] eqn:Er.
+      injection H as <- <- <-. eapply BS_cont; eauto.
+    + injection H as <- <- <-. apply BS_yield; auto.
+    + injection H as <- <- <-. apply BS_hang; auto.
+Qed.
+
+Lemma exec_has_shape m fuel : forall tid b st st' ev s,
+  exec m fuel tid b st = (st', ev, s) -> exec_shape m tid b st st' ev s.
+Proof.
+  induction fuel as [|fuel IH]; intros tid b st st' ev s H; cbn [exec] in H.
+  - injection H as <- <- <-. constructor.
+  - destruct b; try (apply XS_basic; exact H).
+    + (* resume *)
+      destruct (lookup t (threads st)) as [[body|body| | |]|] eqn:El.
+      * destruct (run_with (exec m fuel) (S t) body (set_threads st (setth t TRunning (threads st))))
+          as [[st1 ev1] ts] eqn:Er.
+        injection H as <- <- <-. eapply XS_run; eauto. eapply run_with_shape; eauto.
+      * destruct (run_with (exec m fuel) (S t) body (set_threads st (setth t TRunning (threads st))))
+          as [[st1 ev1] ts] eqn:Er.
+        injection H as <- <- <-. eapply XS_run; eauto. eapply run_with_shape; eauto.
+      * injection H as <- <- <-. apply XS_blocked; auto.
+      * injection H as <- <- <-. apply XS_bad.
+      * injection H as <- <- <-. apply XS_dead; auto.
+      * injection H as <- <- <-. apply XS_bad.
+    + (* spawn *)
+      destruct (lookup lab (threads st)) eqn:El; injection H as <- <- <-.
+      * apply XS_bad.
+      * apply XS_spawn; auto.
+Qed.
+
+(* ------------------------------------------------------------------------------------ *)
 (* what [force] does not touch                                                          *)
 (* ------------------------------------------------------------------------------------ *)
 Definition chan_event (e : event) : bool :=
   match e with ESend _ _ _ | ERecv _ _ _ => true | _ => false end.
 Definition alloc_event (e : event) : bool :=
-  match e with ERef _ _ | ELazy _ _ | ESpawn _ => true | _ => false end.
+  match e with ERef _ _ | ELazy _ _ | ESpawn _ _ => true | _ => false end.
 
 Lemma force_events_plain m tid vis l rs ls rs' ls' ev r :
   force_shape m tid vis l rs ls rs' ls' ev r ->
@@ -289,20 +395,19 @@ Proof.
     injection H as <- <- <-. cbn [chans set_rl]. apply accept_q_plain.
     eapply force_events_plain. eapply force_has_shape; eauto.
   - inversion H; subst. reflexivity.
+  - inversion H; subst. reflexivity.
+  - inversion H; subst. reflexivity.
 Qed.
 
-Lemma run_body_accept_q m tid body : forall st st' ev ts,
-  run_body m tid body st = (st', ev, ts) -> accept_q (chans st) ev = Some (chans st').
+Lemma exec_accept_q m tid b st st' ev s :
+  exec_shape m tid b st st' ev s -> accept_q (chans st) ev = Some (chans st').
 Proof.
-  induction body as [|b rest IH]; intros st st' ev ts H; simpl in H.
-  - inversion H; subst. reflexivity.
-  - destruct (bstep m tid b st) as [[st1 ev1] s] eqn:Eb.
-    pose proof (bstep_accept_q _ _ _ _ _ _ _ Eb) as H1.
-    destruct s.
-    + destruct (run_body m tid rest st1) as [[st2 ev2] ts2] eqn:Er.
-      inversion H; subst. rewrite accept_q_app, H1. eapply IH; eauto.
-    + inversion H; subst; auto.
-    + inversion H; subst; auto.
+  intros H.
+  induction H using exec_shape_ind2 with
+    (P0 := fun tid body st st' ev ts => accept_q (chans st) ev = Some (chans st')); simpl; auto.
+  - eapply bstep_accept_q; eauto.
+  - rewrite accept_q_app. simpl in IHexec_shape. rewrite IHexec_shape. reflexivity.
+  - rewrite accept_q_app, IHexec_shape. exact IHexec_shape0.
 Qed.
 
 Lemma step_accept_q m st o st' ev :
@@ -310,17 +415,11 @@ Lemma step_accept_q m st o st' ev :
 Proof.
   unfold step. destruct (hung st).
   { intros H; inversion H; subst; reflexivity. }
-  destruct o as [b|v|b|body|t]; intros H.
-  - destruct (bstep m 0 b st) as [[st1 ev1] s] eqn:Eb. inversion H; subst.
-    apply bstep_accept_q in Eb. rewrite Eb. destruct s; reflexivity.
+  destruct o as [b|v|b]; intros H.
+  - destruct (exec m (fuel_for st b) 0 b st) as [[st1 ev1] s] eqn:Eb. inversion H; subst.
+    apply exec_has_shape, exec_accept_q in Eb. rewrite Eb. destruct s; reflexivity.
   - inversion H; subst. reflexivity.
   - destruct (wf_lbody st b); inversion H; subst; reflexivity.
-  - destruct (forallb (wf_bop st) body); inversion H; subst; reflexivity.
-  - destruct (nth_error (threads st) t) as [[body|body| |]|] eqn:E; try (inversion H; subst; reflexivity).
-    + destruct (run_body m (S t) body st) as [[st1 ev1] ts] eqn:Er. inversion H; subst.
-      rewrite accept_q_app. erewrite run_body_accept_q by eauto. reflexivity.
-    + destruct (run_body m (S t) body st) as [[st1 ev1] ts] eqn:Er. inversion H; subst.
-      rewrite accept_q_app. erewrite run_body_accept_q by eauto. reflexivity.
 Qed.
 
 (* the whole history of any run is a legal FIFO-queue history *)
@@ -457,20 +556,19 @@ Proof.
     injection H as <- <- <-. cbn [refs set_rl].
     eapply force_accept_r. eapply force_has_shape; eauto.
   - inversion H; subst. reflexivity.
+  - inversion H; subst. reflexivity.
+  - inversion H; subst. reflexivity.
 Qed.
 
-Lemma run_body_accept_r m tid body : forall st st' ev ts,
-  run_body m tid body st = (st', ev, ts) -> accept_r (refs st) ev = Some (refs st').
+Lemma exec_accept_r m tid b st st' ev s :
+  exec_shape m tid b st st' ev s -> accept_r (refs st) ev = Some (refs st').
 Proof.
-  induction body as [|b rest IH]; intros st st' ev ts H; simpl in H.
-  - inversion H; subst. reflexivity.
-  - destruct (bstep m tid b st) as [[st1 ev1] s] eqn:Eb.
-    pose proof (bstep_accept_r _ _ _ _ _ _ _ Eb) as H1.
-    destruct s.
-    + destruct (run_body m tid rest st1) as [[st2 ev2] ts2] eqn:Er.
-      inversion H; subst. rewrite accept_r_app, H1. eapply IH; eauto.
-    + inversion H; subst; auto.
-    + inversion H; subst; auto.
+  intros H.
+  induction H using exec_shape_ind2 with
+    (P0 := fun tid body st st' ev ts => accept_r (refs st) ev = Some (refs st')); simpl; auto.
+  - eapply bstep_accept_r; eauto.
+  - rewrite accept_r_app. simpl in IHexec_shape. rewrite IHexec_shape. reflexivity.
+  - rewrite accept_r_app, IHexec_shape. exact IHexec_shape0.
 Qed.
 
 Lemma step_accept_r m st o st' ev :
@@ -478,17 +576,11 @@ Lemma step_accept_r m st o st' ev :
 Proof.
   unfold step. destruct (hung st).
   { intros H; inversion H; subst; reflexivity. }
-  destruct o as [b|v|b|body|t]; intros H.
-  - destruct (bstep m 0 b st) as [[st1 ev1] s] eqn:Eb. inversion H; subst.
-    apply bstep_accept_r in Eb. rewrite Eb. destruct s; reflexivity.
+  destruct o as [b|v|b]; intros H.
+  - destruct (exec m (fuel_for st b) 0 b st) as [[st1 ev1] s] eqn:Eb. inversion H; subst.
+    apply exec_has_shape, exec_accept_r in Eb. rewrite Eb. destruct s; reflexivity.
   - inversion H; subst. simpl. rewrite Nat.eqb_refl. reflexivity.
   - destruct (wf_lbody st b); inversion H; subst; reflexivity.
-  - destruct (forallb (wf_bop st) body); inversion H; subst; reflexivity.
-  - destruct (nth_error (threads st) t) as [[body|body| |]|] eqn:E; try (inversion H; subst; reflexivity).
-    + destruct (run_body m (S t) body st) as [[st1 ev1] ts] eqn:Er. inversion H; subst.
-      rewrite accept_r_app. erewrite run_body_accept_r by eauto. reflexivity.
-    + destruct (run_body m (S t) body st) as [[st1 ev1] ts] eqn:Er. inversion H; subst.
-      rewrite accept_r_app. erewrite run_body_accept_r by eauto. reflexivity.
 Qed.
 
 Theorem ref_refines_cell : forall m ops,
@@ -1066,29 +1158,81 @@ Proof.
     split; auto. split; [|split]; auto.
     intros Hm. specialize (Hh Hm). destruct r; congruence.
   - injection H as <- <- <-. split; [apply LInv_quiet; auto|split; [|split]; auto; intros ? ?; discriminate].
+  - injection H as <- <- <-. split; [apply LInv_quiet; auto|split; [|split]; auto; intros ? ?; discriminate].
+  - injection H as <- <- <-. split; [apply LInv_quiet; auto|split; [|split]; auto; intros ? ?; discriminate].
 Qed.
 
-Lemma run_body_LInv m tid body : forall st st' ev ts tr,
-  LInv m (lazies st) tr -> run_body m tid body st = (st', ev, ts) ->
-  LInv m (lazies st') (tr ++ ev) /\ threads st' = threads st /\ hung st' = hung st /\
-  (m = Fixed -> ts <> TBlocked).
+Definition noblk (ths : list (nat * tstate)) : Prop := forall t, lookup t ths <> Some TBlocked.
+
+Lemma noblk_setth y x ths : noblk ths -> x <> TBlocked -> noblk (setth y x ths).
 Proof.
-  induction body as [|b rest IH]; intros st st' ev ts tr HI H; simpl in H.
-  - injection H as <- <- <-. rewrite app_nil_r. split; [|split; [|split]]; auto; intros ? ?; discriminate.
-  - destruct (bstep m tid b st) as [[st1 ev1] s] eqn:Eb.
-    destruct (bstep_LInv _ _ _ _ _ _ _ _ HI Eb) as (HI1 & Ht1 & Hh1 & Hs1).
-    destruct s.
-    + destruct (run_body m tid rest st1) as [[st2 ev2] ts2] eqn:Er.
-      injection H as <- <- <-.
-      destruct (IH _ _ _ _ _ HI1 Er) as (HI2 & Ht2 & Hh2 & Hs2).
-      rewrite app_assoc. split; [|split; [|split]]; auto; congruence.
-    + injection H as <- <- <-. split; [|split; [|split]]; auto; intros ? ?; discriminate.
-    + injection H as <- <- <-. split; [|split; [|split]]; auto. intros Hm. exfalso. apply (Hs1 Hm). reflexivity.
+  intros Hn Hx t E. rewrite lookup_setth in E. destruct (Nat.eqb t y).
+  - destruct (lookup y ths); [|discriminate]. inversion E; congruence.
+  - eapply Hn; eauto.
+Qed.
+
+Lemma exec_LInv m tid b st st' ev s :
+  exec_shape m tid b st st' ev s ->
+  hung st' = hung st /\
+  forall tr, LInv m (lazies st) tr ->
+    LInv m (lazies st') (tr ++ ev) /\
+    (m = Fixed -> s <> SHang /\ (noblk (threads st) -> noblk (threads st'))).
+Proof.
+  intros H.
+  induction H using exec_shape_ind2 with
+    (P0 := fun tid body st st' ev ts =>
+       hung st' = hung st /\
+       forall tr, LInv m (lazies st) tr ->
+         LInv m (lazies st') (tr ++ ev) /\
+         (m = Fixed -> ts <> TBlocked /\ (noblk (threads st) -> noblk (threads st')))).
+  - split; auto. intros tr HI. split; [apply LInv_quiet; auto|]. intros _. split; [discriminate|auto].
+  - (* basic *)
+    assert (hung st' = hung st) as Hh.
+    { destruct b; cbn [bstep] in H;
+        repeat match goal with
+               | H : context [match ?x with _ => _ end] |- _ => destruct x
+               end; injection H as <- <- <-; reflexivity. }
+    split; auto. intros tr HI.
+    destruct (bstep_LInv _ _ _ _ _ _ _ _ HI H) as (HI1 & Ht1 & Hh1 & Hs1).
+    split; auto. intros Hm. split; auto. rewrite Ht1. auto.
+  - (* spawn *)
+    split; auto. intros tr HI. split; [apply LInv_quiet; auto|]. intros _. split; [discriminate|].
+    intros Hn t E. cbn [threads set_threads] in E. rewrite lookup_snoc in E.
+    destruct (lookup t (threads st)) eqn:El.
+    + inversion E; subst. eapply Hn; eauto.
+    + destruct (Nat.eqb lab t); discriminate.
+  - split; auto. intros tr HI. split; [apply LInv_quiet; auto|]. intros _. split; [discriminate|auto].
+  - split; auto. intros tr HI. split; [apply LInv_quiet; auto|]. intros _. split; [discriminate|auto].
+  - split; auto. intros tr HI. split; [apply LInv_quiet; auto|]. intros _. split; [discriminate|auto].
+  - (* run *)
+    destruct IHexec_shape as [Hh IH]. split; [exact Hh|].
+    intros tr HI. destruct (IH tr HI) as [HI1 Hf].
+    split.
+    + rewrite app_assoc. apply LInv_quiet; auto.
+    + intros Hm. destruct (Hf Hm) as [Hts Hn]. split; [discriminate|].
+      intros Hn0. cbn [threads set_threads]. apply noblk_setth; auto.
+      apply Hn. cbn [threads set_threads]. apply noblk_setth; auto. discriminate.
+  - (* nil *)
+    split; auto. intros tr HI. rewrite app_nil_r. split; auto. intros _. split; [discriminate|auto].
+  - (* cont *)
+    destruct IHexec_shape as [Hh1 IH1]. destruct IHexec_shape0 as [Hh2 IH2].
+    split; [congruence|]. intros tr HI.
+    destruct (IH1 tr HI) as [HI1 Hf1]. destruct (IH2 _ HI1) as [HI2 Hf2].
+    split; [rewrite app_assoc; exact HI2|].
+    intros Hm. destruct (Hf1 Hm) as [_ Hn1]. destruct (Hf2 Hm) as [Hts Hn2]. split; auto.
+  - (* yield *)
+    destruct IHexec_shape as [Hh1 IH1]. split; auto. intros tr HI.
+    destruct (IH1 tr HI) as [HI1 Hf1]. split; auto.
+    intros Hm. destruct (Hf1 Hm) as [_ Hn1]. split; [discriminate|auto].
+  - (* hang *)
+    destruct IHexec_shape as [Hh1 IH1]. split; auto. intros tr HI.
+    destruct (IH1 tr HI) as [HI1 Hf1]. split; auto.
+    intros Hm. destruct (Hf1 Hm) as [Hs _]. exfalso. apply Hs. reflexivity.
 Qed.
 
 Definition TInv (m : mode) (st : state) : Prop :=
   match m with
-  | Fixed => hung st = false /\ (forall i, nth_error (threads st) i <> Some TBlocked)
+  | Fixed => hung st = false /\ noblk (threads st)
   | Faithful => True
   end.
 
@@ -1100,47 +1244,20 @@ Lemma step_Inv m st tr o st' ev :
 Proof.
   intros [HI HT]. unfold step. destruct (hung st) eqn:Eh.
   { intros H; injection H as <- <-. rewrite app_nil_r. split; auto. }
-  destruct o as [b|v|b|body|t]; intros H.
-  - destruct (bstep m 0 b st) as [[st1 ev1] s] eqn:Eb. injection H as <- <-.
-    destruct (bstep_LInv _ _ _ _ _ _ _ _ HI Eb) as (HI1 & Ht1 & Hh1 & Hs1).
+  destruct o as [b|v|b]; intros H.
+  - destruct (exec m (fuel_for st b) 0 b st) as [[st1 ev1] s] eqn:Eb. injection H as <- <-.
+    apply exec_has_shape, exec_LInv in Eb. destruct Eb as [Hh Hx].
+    destruct (Hx tr HI) as [HI1 Hf].
     split.
     + destruct s; auto.
     + destruct m; simpl; auto. destruct HT as [HT1 HT2].
-      destruct s; simpl; try (split; congruence).
-      exfalso. apply Hs1; auto.
+      destruct (Hf eq_refl) as [Hs Hn].
+      destruct s; simpl; split; try congruence; auto.
   - injection H as <- <-. split; [apply LInv_quiet; auto|].
     destruct m; simpl in *; auto.
   - destruct (wf_lbody st b); injection H as <- <-.
     + split; [apply LInv_alloc; auto|]. destruct m; simpl in *; auto.
     + split; [apply LInv_quiet; auto|]. auto.
-  - destruct (forallb (wf_bop st) body); injection H as <- <-.
-    + split; [apply LInv_quiet; auto|]. destruct m; simpl in *; auto.
-      destruct HT as [HT1 HT2]. split; auto.
-      intros i E. rewrite nth_snoc in E. destruct (Nat.eqb i (length (threads st))); [discriminate|].
-      eapply HT2; eauto.
-    + split; [apply LInv_quiet; auto|]. auto.
-  - destruct (nth_error (threads st) t) as [[body|body| |]|] eqn:E.
-    + destruct (run_body m (S t) body st) as [[st1 ev1] ts] eqn:Er. injection H as <- <-.
-      destruct (run_body_LInv _ _ _ _ _ _ _ _ HI Er) as (HI1 & Ht1 & Hh1 & Hs1).
-      split.
-      * rewrite app_assoc. apply LInv_quiet; auto.
-      * destruct m; simpl in *; auto. destruct HT as [HT1 HT2]. split; [congruence|].
-        intros i Ei. rewrite nth_upd in Ei. destruct (Nat.eqb i t).
-        -- destruct (Nat.ltb t (length (threads st1))); [|discriminate].
-           inversion Ei; subst. apply Hs1; auto.
-        -- rewrite Ht1 in Ei. eapply HT2; eauto.
-    + destruct (run_body m (S t) body st) as [[st1 ev1] ts] eqn:Er. injection H as <- <-.
-      destruct (run_body_LInv _ _ _ _ _ _ _ _ HI Er) as (HI1 & Ht1 & Hh1 & Hs1).
-      split.
-      * rewrite app_assoc. apply LInv_quiet; auto.
-      * destruct m; simpl in *; auto. destruct HT as [HT1 HT2]. split; [congruence|].
-        intros i Ei. rewrite nth_upd in Ei. destruct (Nat.eqb i t).
-        -- destruct (Nat.ltb t (length (threads st1))); [|discriminate].
-           inversion Ei; subst. apply Hs1; auto.
-        -- rewrite Ht1 in Ei. eapply HT2; eauto.
-    + injection H as <- <-. split; [apply LInv_quiet; auto|auto].
-    + injection H as <- <-. split; [apply LInv_quiet; auto|auto].
-    + injection H as <- <-. split; [apply LInv_quiet; auto|auto].
 Qed.
 
 Lemma Inv_init m : Inv m init [].
@@ -1152,7 +1269,7 @@ Proof.
     + destruct m.
       * intros k. destruct k; simpl; discriminate.
       * split; [intros k o; destruct k; simpl; discriminate|intros vis t k []].
-  - destruct m; simpl; auto. split; auto. intros i; destruct i; simpl; discriminate.
+  - destruct m; simpl; auto. split; auto. intros t; simpl; discriminate.
 Qed.
 
 Theorem run_Inv : forall m ops, Inv m (final m ops) (trace m ops).
@@ -1215,7 +1332,7 @@ Qed.
 (* ---- mode Fixed: the model with the failure stored in the cell ---- *)
 Theorem fixed_never_hangs : forall ops,
   hung (final Fixed ops) = false /\
-  (forall i, nth_error (threads (final Fixed ops)) i <> Some TBlocked) /\
+  (forall t, lookup t (threads (final Fixed ops)) <> Some TBlocked) /\
   (forall vis t k, ~ In (EForce vis t k FHang) (trace Fixed ops)).
 Proof.
   intros ops. destruct (run_Inv Fixed ops) as [[_ _ _ _ _ [_ Hnh]] [Hh Hb]]. auto.
@@ -1298,9 +1415,9 @@ Theorem lazy_failure_other_thread_refuted :
     In (ELazy k failing) (trace Faithful ops) /\
     In (EForce true 0 k FErr) (trace Faithful ops) /\
     In (EForce true t k FHang) (trace Faithful ops) /\
-    nth_error (threads (final Faithful ops)) 0 = Some TBlocked.
+    lookup 0 (threads (final Faithful ops)) = Some TBlocked.
 Proof.
-  exists [OLazy failing; OB (BForce 0); OSpawn [BForce 0; BSend 0 1]; OResume 0; OResume 0], 0, 1.
+  exists [OLazy failing; OB (BForce 0); OB (BSpawn 0 [BForce 0; BSend 0 1]); OB (BResume 0); OB (BResume 0)], 0, 1.
   vm_compute. repeat split; auto 10.
 Qed.
 
@@ -1311,7 +1428,7 @@ Theorem lazy_failure_main_thread_hang_refuted :
               In (EForce true 0 0 FHang) (trace Faithful ops) /\
               hung (final Fixed ops) = false.
 Proof.
-  exists [OLazy failing; OSpawn [BForce 0]; OResume 0; OB (BForce 0)].
+  exists [OLazy failing; OB (BSpawn 0 [BForce 0]); OB (BResume 0); OB (BForce 0)].
   vm_compute. repeat split; auto 10.
 Qed.
 
@@ -1320,7 +1437,7 @@ Theorem lazy_self_loop_other_thread_refuted :
   exists ops, hung (final Faithful ops) = true /\
               In (ELazy 0 (mkBody None (RForce 0))) (trace Faithful ops).
 Proof.
-  exists [OLazy (mkBody None (RForce 0)); OSpawn [BForce 0]; OResume 0; OB (BForce 0)].
+  exists [OLazy (mkBody None (RForce 0)); OB (BSpawn 0 [BForce 0]); OB (BResume 0); OB (BForce 0)].
   vm_compute. repeat split; auto 10.
 Qed.
 
@@ -1328,94 +1445,134 @@ Qed.
 (* coroutines: a finished thread is reported dead by every later resume                 *)
 (* ------------------------------------------------------------------------------------ *)
 Lemma force_no_resume m tid vis l rs ls rs' ls' ev r :
-  force_shape m tid vis l rs ls rs' ls' ev r -> forall t x, ~ In (EResume t x) ev.
+  force_shape m tid vis l rs ls rs' ls' ev r -> forall r0 t x, ~ In (EResume r0 t x) ev.
 Proof.
   intros H.
   induction H using force_shape_ind2 with
-    (P0 := fun lr rs ls rs' ls' ev r => forall t x, ~ In (EResume t x) ev);
-    intros t x Hin; try (destruct Hin as [Hin|[]]; discriminate); try (destruct Hin).
+    (P0 := fun lr rs ls rs' ls' ev r => forall r0 t x, ~ In (EResume r0 t x) ev);
+    intros r0 t x Hin; try (destruct Hin as [Hin|[]]; discriminate); try (destruct Hin).
   - discriminate.
   - apply in_app_or in H2 as [Hin|Hin].
     + apply do_bump_cases in H0.
-      destruct H0 as [[_ [->| ->]]|(r0 & v & _ & _ & _ & ->)]; simpl in Hin; intuition discriminate.
+      destruct H0 as [[_ [->| ->]]|(r1 & v & _ & _ & _ & ->)]; simpl in Hin; intuition discriminate.
     + apply in_app_or in Hin as [Hin|[Hin|[]]]; [eapply IHforce_shape; eauto|discriminate].
   - eapply IHforce_shape; eauto.
 Qed.
 
 Lemma bstep_threads m tid b st st' ev s :
   bstep m tid b st = (st', ev, s) ->
-  threads st' = threads st /\ hung st' = hung st /\ forall t x, ~ In (EResume t x) ev.
+  threads st' = threads st /\ forall r0 t x, ~ In (EResume r0 t x) ev.
 Proof.
   destruct b; cbn [bstep]; intros H.
   - destruct (nth_error (chans st) c); injection H as <- <- <-;
-      (split; [|split]; auto; intros t x [Hin|[]]; discriminate).
+      (split; auto; intros r0 t x [Hin|[]]; discriminate).
   - destruct (nth_error (chans st) c) as [[|v q]|]; injection H as <- <- <-;
-      (split; [|split]; auto; intros t x [Hin|[]]; discriminate).
+      (split; auto; intros r0 t x [Hin|[]]; discriminate).
   - destruct (nth_error (refs st) r); injection H as <- <- <-;
-      (split; [|split]; auto; intros t x [Hin|[]]; discriminate).
+      (split; auto; intros r0 t x [Hin|[]]; discriminate).
   - destruct (nth_error (refs st) r); injection H as <- <- <-;
-      (split; [|split]; auto; intros t x [Hin|[]]; discriminate).
+      (split; auto; intros r0 t x [Hin|[]]; discriminate).
   - destruct (force m (S (length (lazies st))) tid true l (refs st) (lazies st)) as [[[rs ls] ev'] r] eqn:Ef.
-    injection H as <- <- <-. split; [|split]; auto.
+    injection H as <- <- <-. split; auto.
     eapply force_no_resume. eapply force_has_shape; eauto.
-  - injection H as <- <- <-. split; [|split]; auto; intros t x [Hin|[]]; discriminate.
+  - injection H as <- <- <-. split; auto; intros r0 t x [Hin|[]]; discriminate.
+  - injection H as <- <- <-. split; auto; intros r0 t0 x [Hin|[]]; discriminate.
+  - injection H as <- <- <-. split; auto; intros r0 t x [Hin|[]]; discriminate.
 Qed.
 
-Lemma run_body_threads m tid body : forall st st' ev ts,
-  run_body m tid body st = (st', ev, ts) ->
-  threads st' = threads st /\ hung st' = hung st /\ forall t x, ~ In (EResume t x) ev.
+(* What one operation (with everything it resumes, transitively) does to a thread t:
+   finished stays finished and is reported dead; running stays running; dead is reported only
+   for a finished thread. *)
+Definition done_spec (st st' : state) (ev : list event) : Prop :=
+  forall t,
+    (lookup t (threads st) = Some TDone ->
+       lookup t (threads st') = Some TDone /\ forall r0 x, In (EResume r0 t x) ev -> x = RDead) /\
+    (lookup t (threads st) = Some TRunning -> lookup t (threads st') = Some TRunning) /\
+    (forall r0, In (EResume r0 t RDead) ev -> lookup t (threads st') = Some TDone).
+
+Lemma done_spec_quiet st ev :
+  (forall r0 t x, ~ In (EResume r0 t x) ev) -> done_spec st st ev.
 Proof.
-  induction body as [|b rest IH]; intros st st' ev ts H; simpl in H.
-  - injection H as <- <- <-. split; [|split]; auto.
-  - destruct (bstep m tid b st) as [[st1 ev1] s] eqn:Eb.
-    destruct (bstep_threads _ _ _ _ _ _ _ Eb) as (T1 & H1 & R1).
-    destruct s.
-    + destruct (run_body m tid rest st1) as [[st2 ev2] ts2] eqn:Er.
-      injection H as <- <- <-. destruct (IH _ _ _ _ Er) as (T2 & H2 & R2).
-      split; [congruence|split; [congruence|]].
-      intros t x Hin. apply in_app_or in Hin as [Hin|Hin]; [eapply R1|eapply R2]; eauto.
-    + injection H as <- <- <-. auto.
-    + injection H as <- <- <-. auto.
+  intros Hq t. split; [|split]; auto.
+  - intros Hd. split; auto. intros r0 x Hin. exfalso. eapply Hq; eauto.
+  - intros r0 Hin. exfalso. eapply Hq; eauto.
 Qed.
 
-Lemma step_done m st o st' ev t :
-  nth_error (threads st) t = Some TDone -> step m st o = (st', ev) ->
-  nth_error (threads st') t = Some TDone /\ (forall x, In (EResume t x) ev -> x = RDead).
+Lemma done_spec_trans st st1 st2 ev ev2 :
+  done_spec st st1 ev -> done_spec st1 st2 ev2 -> done_spec st st2 (ev ++ ev2).
 Proof.
-  intros Hd. unfold step. destruct (hung st).
-  { intros H; injection H as <- <-. split; auto. intros x []. }
-  destruct o as [b|v|b|body|t']; intros H.
-  - destruct (bstep m 0 b st) as [[st1 ev1] s] eqn:Eb. injection H as <- <-.
-    destruct (bstep_threads _ _ _ _ _ _ _ Eb) as (T1 & H1 & R1).
-    split.
-    + destruct s; simpl; congruence.
-    + intros x Hin. exfalso. eapply R1; eauto.
-  - injection H as <- <-. split; auto. intros x [Hin|[]]; discriminate.
-  - destruct (wf_lbody st b); injection H as <- <-; (split; auto; intros x [Hin|[]]; discriminate).
-  - destruct (forallb (wf_bop st) body); injection H as <- <-.
-    + split.
-      * simpl. rewrite nth_error_app1; auto. eapply nth_some_lt; eauto.
-      * intros x [Hin|[]]; discriminate.
-    + split; auto. intros x [Hin|[]]; discriminate.
-  - destruct (Nat.eq_dec t' t) as [->|Hne].
-    + rewrite Hd in H. injection H as <- <-. split; auto.
-      intros x [Hin|[]]. inversion Hin; auto.
-    + destruct (nth_error (threads st) t') as [[body|body| |]|] eqn:E.
-      * destruct (run_body m (S t') body st) as [[st1 ev1] ts] eqn:Er. injection H as <- <-.
-        destruct (run_body_threads _ _ _ _ _ _ _ Er) as (T1 & H1 & R1).
-        split.
-        -- simpl. rewrite nth_upd_neq by auto. congruence.
-        -- intros x Hin. apply in_app_or in Hin as [Hin|[Hin|[]]]; [exfalso; eapply R1; eauto|].
-           inversion Hin; congruence.
-      * destruct (run_body m (S t') body st) as [[st1 ev1] ts] eqn:Er. injection H as <- <-.
-        destruct (run_body_threads _ _ _ _ _ _ _ Er) as (T1 & H1 & R1).
-        split.
-        -- simpl. rewrite nth_upd_neq by auto. congruence.
-        -- intros x Hin. apply in_app_or in Hin as [Hin|[Hin|[]]]; [exfalso; eapply R1; eauto|].
-           inversion Hin; congruence.
-      * injection H as <- <-. split; auto. intros x [Hin|[]]. inversion Hin; congruence.
-      * injection H as <- <-. split; auto. intros x [Hin|[]]. inversion Hin; congruence.
-      * injection H as <- <-. split; auto. intros x [Hin|[]]. discriminate.
+  intros H1 H2 t. destruct (H1 t) as (A1 & B1 & C1). destruct (H2 t) as (A2 & B2 & C2).
+  split; [|split].
+  - intros Hd. destruct (A1 Hd) as [Hd1 E1]. destruct (A2 Hd1) as [Hd2 E2]. split; auto.
+    intros r0 x Hin. apply in_app_or in Hin as [Hin|Hin]; eauto.
+  - auto.
+  - intros r0 Hin. apply in_app_or in Hin as [Hin|Hin]; eauto.
+    apply C1 in Hin. apply A2 in Hin. tauto.
+Qed.
+
+Lemma exec_done m tid b st st' ev s :
+  exec_shape m tid b st st' ev s -> done_spec st st' ev.
+Proof.
+  intros H.
+  induction H using exec_shape_ind2 with
+    (P0 := fun tid body st st' ev ts => done_spec st st' ev).
+  - apply done_spec_quiet. intros r0 t x [Hin|[]]; discriminate.
+  - (* basic *)
+    destruct (bstep_threads _ _ _ _ _ _ _ H) as [Ht Hq].
+    intros t. rewrite Ht. split; [|split]; auto.
+    + intros Hd. split; auto. intros r0 x Hin. exfalso. eapply Hq; eauto.
+    + intros r0 Hin. exfalso. eapply Hq; eauto.
+  - (* spawn *)
+    intros t. cbn [threads set_threads]. rewrite lookup_snoc. split; [|split].
+    + intros Hd. rewrite Hd. split; auto. intros r0 x [Hin|[]]; discriminate.
+    + intros Hd. rewrite Hd. reflexivity.
+    + intros r0 [Hin|[]]; discriminate.
+  - apply done_spec_quiet. intros r0 t x [Hin|[]]; discriminate.
+  - (* dead *)
+    intros t. split; [|split]; auto.
+    + intros Hd. split; auto. intros r0 x [Hin|[]]. inversion Hin; subst; auto.
+    + intros r0 [Hin|[]]. inversion Hin; subst; auto.
+  - (* blocked *)
+    intros t. split; [|split]; auto.
+    + intros Hd. split; auto. intros r0 x [Hin|[]]. inversion Hin; subst. congruence.
+    + intros r0 [Hin|[]]. discriminate.
+  - (* run *)
+    rename IHexec_shape into IH.
+    assert (forall t, t <> y ->
+              lookup t (threads (set_threads st (setth y TRunning (threads st)))) = lookup t (threads st)) as Hst0.
+    { intros t Hne. cbn [threads set_threads]. apply lookup_setth_other; auto. }
+    assert (lookup y (threads st1) = Some TRunning) as Hrun.
+    { apply (IH y). cbn [threads set_threads]. eapply lookup_setth_same; eauto. }
+    intros t. destruct (IH t) as (A & B & C). cbn [threads set_threads].
+    split; [|split].
+    + intros Hd.
+      assert (t <> y) as Hne by (intros ->; destruct H0; congruence).
+      rewrite <- Hst0 in Hd by auto. destruct (A Hd) as [Hd1 E1].
+      rewrite lookup_setth_other by auto. split; auto.
+      intros r0 x Hin. apply in_app_or in Hin as [Hin|[Hin|[]]]; eauto.
+      inversion Hin; congruence.
+    + intros Hd.
+      assert (t <> y) as Hne by (intros ->; destruct H0; congruence).
+      rewrite <- Hst0 in Hd by auto. rewrite lookup_setth_other by auto. auto.
+    + intros r0 Hin. apply in_app_or in Hin as [Hin|[Hin|[]]]; [|discriminate].
+      apply C in Hin. destruct (Nat.eq_dec t y) as [->|Hne]; [congruence|].
+      rewrite lookup_setth_other by auto. exact Hin.
+  - apply done_spec_quiet. intros r0 t x [].
+  - eapply done_spec_trans; eauto.
+  - exact IHexec_shape.
+  - exact IHexec_shape.
+Qed.
+
+Lemma step_done_spec m st o st' ev : step m st o = (st', ev) -> done_spec st st' ev.
+Proof.
+  unfold step. destruct (hung st).
+  { intros H; injection H as <- <-. apply done_spec_quiet. intros r0 t x []. }
+  destruct o as [b|v|b]; intros H.
+  - destruct (exec m (fuel_for st b) 0 b st) as [[st1 ev1] s] eqn:Eb. injection H as <- <-.
+    apply exec_has_shape, exec_done in Eb. destruct s; exact Eb.
+  - injection H as <- <-. apply (done_spec_quiet st). intros r0 t x [Hin|[]]; discriminate.
+  - destruct (wf_lbody st b); injection H as <- <-;
+      apply (done_spec_quiet st); intros r0 t x [Hin|[]]; discriminate.
 Qed.
 
 Lemma run_from_ext m ops : forall st tr,
@@ -1429,16 +1586,19 @@ Qed.
 
 (* resume of a finished thread reports `Err "dead"` and changes nothing *)
 Theorem resume_dead_reports : forall m ops t,
-  nth_error (threads (final m ops)) t = Some TDone -> hung (final m ops) = false ->
-  step m (final m ops) (OResume t) = (final m ops, [EResume t RDead]).
-Proof. intros m ops t Hd Hh. unfold step. rewrite Hh, Hd. reflexivity. Qed.
+  lookup t (threads (final m ops)) = Some TDone -> hung (final m ops) = false ->
+  step m (final m ops) (OB (BResume t)) = (final m ops, [EResume 0 t RDead]).
+Proof.
+  intros m ops t Hd Hh. unfold step, fuel_for. rewrite Hh. cbn [exec]. rewrite Hd. reflexivity.
+Qed.
 
-(* ... and it stays finished: whatever happens afterwards, every later resume of it reports dead *)
+(* ... and it stays finished: whatever happens afterwards, every later resume of it — by the
+   main thread or by any coroutine — reports dead *)
 Theorem resume_dead_forever : forall m ops ops' t,
-  nth_error (threads (final m ops)) t = Some TDone ->
-  nth_error (threads (final m (ops ++ ops'))) t = Some TDone /\
+  lookup t (threads (final m ops)) = Some TDone ->
+  lookup t (threads (final m (ops ++ ops'))) = Some TDone /\
   exists ext, trace m (ops ++ ops') = trace m ops ++ ext /\
-              forall x, In (EResume t x) ext -> x = RDead.
+              forall r0 x, In (EResume r0 t x) ext -> x = RDead.
 Proof.
   intros m ops ops' t Hd. unfold final, trace, run in *.
   rewrite run_from_app, run_from_ext.
@@ -1446,39 +1606,41 @@ Proof.
   set (tr := snd (run_from m init [] ops)) in *.
   simpl fst; simpl snd.
   pose proof (run_from_inv m
-    (fun s e => nth_error (threads s) t = Some TDone /\ forall x, In (EResume t x) e -> x = RDead)) as HI.
+    (fun s e => lookup t (threads s) = Some TDone /\ forall r0 x, In (EResume r0 t x) e -> x = RDead)) as HI.
   destruct (HI) with (ops := ops') (st := st) (tr := @nil event) as [H1 H2].
-  - intros s e o s' ev [Ha Hb] Hs. destruct (step_done _ _ _ _ _ _ Ha Hs) as [Hc Hd'].
-    split; auto. intros x Hin. apply in_app_or in Hin as [Hin|Hin]; auto.
-  - split; auto. intros x [].
+  - intros s e o s' ev [Ha Hb] Hs. apply step_done_spec in Hs.
+    destruct (Hs t) as (A & _ & _). destruct (A Ha) as [Hc Hd'].
+    split; auto. intros r0 x Hin. apply in_app_or in Hin as [Hin|Hin]; eauto.
+  - split; auto. intros r0 x [].
   - split; auto. exists (snd (run_from m st [] ops')). split; auto.
 Qed.
 
 (* dead is only ever reported for a thread whose body ran to its end *)
-Theorem resume_dead_only_when_done : forall m ops t,
-  In (EResume t RDead) (trace m ops) -> nth_error (threads (final m ops)) t = Some TDone.
+Theorem resume_dead_only_when_done : forall m ops r0 t,
+  In (EResume r0 t RDead) (trace m ops) -> lookup t (threads (final m ops)) = Some TDone.
 Proof.
-  intros m ops t.
-  apply (run_inv m (fun st tr => In (EResume t RDead) tr -> nth_error (threads st) t = Some TDone)).
+  intros m ops r0 t.
+  apply (run_inv m (fun st tr => In (EResume r0 t RDead) tr -> lookup t (threads st) = Some TDone)).
   - intros [].
-  - intros st tr o st' ev HP Hs Hin. apply in_app_or in Hin as [Hin|Hin].
-    + specialize (HP Hin). eapply step_done; eauto.
-    + revert Hs Hin. unfold step. destruct (hung st).
-      { intros H; injection H as <- <-. intros []. }
-      destruct o as [b|v|b|body|t']; intros H Hin.
-      * destruct (bstep m 0 b st) as [[st1 ev1] s] eqn:Eb. injection H as <- <-.
-        destruct (bstep_threads _ _ _ _ _ _ _ Eb) as (_ & _ & R1). exfalso. eapply R1; eauto.
-      * injection H as <- <-. destruct Hin as [Hin|[]]; discriminate.
-      * destruct (wf_lbody st b); injection H as <- <-; destruct Hin as [Hin|[]]; discriminate.
-      * destruct (forallb (wf_bop st) body); injection H as <- <-; destruct Hin as [Hin|[]]; discriminate.
-      * destruct (nth_error (threads st) t') as [[body|body| |]|] eqn:E.
-        -- destruct (run_body m (S t') body st) as [[st1 ev1] ts] eqn:Er. injection H as <- <-.
-           destruct (run_body_threads _ _ _ _ _ _ _ Er) as (_ & _ & R1).
-           apply in_app_or in Hin as [Hin|[Hin|[]]]; [exfalso; eapply R1; eauto|discriminate].
-        -- destruct (run_body m (S t') body st) as [[st1 ev1] ts] eqn:Er. injection H as <- <-.
-           destruct (run_body_threads _ _ _ _ _ _ _ Er) as (_ & _ & R1).
-           apply in_app_or in Hin as [Hin|[Hin|[]]]; [exfalso; eapply R1; eauto|discriminate].
-        -- injection H as <- <-. destruct Hin as [Hin|[]]; discriminate.
-        -- injection H as <- <-. destruct Hin as [Hin|[]]. inversion Hin; subst. exact E.
-        -- injection H as <- <-. destruct Hin as [Hin|[]]; discriminate.
+  - intros st tr o st' ev HP Hs Hin. apply step_done_spec in Hs. destruct (Hs t) as (A & _ & C).
+    apply in_app_or in Hin as [Hin|Hin].
+    + apply A; auto.
+    + eapply C; eauto.
+Qed.
+
+(* `resume` only looks at the target (channel.rs:180-193): which thread issues the resume does
+   not matter for what the resumed coroutine does — same final state, same events up to the
+   `resumed` entry of the log that names the resumer. *)
+Theorem resume_independent_of_resumer : forall m fuel tid tid' y st,
+  fst (fst (exec m fuel tid (BResume y) st)) = fst (fst (exec m fuel tid' (BResume y) st)) /\
+  snd (exec m fuel tid (BResume y) st) = snd (exec m fuel tid' (BResume y) st) /\
+  removelast (snd (fst (exec m fuel tid (BResume y) st))) =
+  removelast (snd (fst (exec m fuel tid' (BResume y) st))).
+Proof.
+  intros m [|f] tid tid' y st; cbn [exec]; auto.
+  destruct (lookup y (threads st)) as [[body|body| | |]|]; auto.
+  - destruct (run_with (exec m f) (S y) body (set_threads st (setth y TRunning (threads st))))
+      as [[st1 ev1] ts]. cbn [fst snd]. rewrite !removelast_last. auto.
+  - destruct (run_with (exec m f) (S y) body (set_threads st (setth y TRunning (threads st))))
+      as [[st1 ev1] ts]. cbn [fst snd]. rewrite !removelast_last. auto.
 Qed.
